@@ -34,11 +34,22 @@ Inductive hs_obs :=
   (* no parseable response *)
 | OBroken (what : N).
 
+(* one stream of an HTTP/2 connection *)
+Inductive h2_res :=
+| H2Status (code : N)      (* final response *)
+| H2NoFinal                (* none within the timeout *)
+| H2Error (k : N).         (* stream or connection failed *)
+
 Inductive c20case :=
   (* header lines as sent (name, raw value between the colon and CRLF) *)
 | CHandshake (wire : list (str * str)) (obs : hs_obs)
   (* over a whole run: number of 101 answers, total handler entries *)
-| CTotals (n101 entered : N).
+| CTotals (n101 entered : N)
+  (* one HTTP/2 connection: the requests to the channel endpoint, one stream
+     each (fields sent, body length); per stream what came back; whether an
+     ordinary request was then answered 200 on the same connection; how far
+     the handler-entered counter moved over the whole connection *)
+| CH2 (reqs : list (list (str * str) * N)) (res : list h2_res) (usable : bool) (entered : N).
 
 (* ---------- well-formed cases: lines hyper's parser lets through and that do
    not change its framing ---------- *)
@@ -122,6 +133,46 @@ Definition model_agrees (m : outcome) (obs : hs_obs) : bool :=
   | OBroken _ => false
   end.
 
+(* ---------- HTTP/2 ---------- *)
+
+(* Connection-specific fields cannot be sent in HTTP/2 (RFC 9113 §8.2.2);
+   a case that lists one is not something the client put on the wire.
+   "connection" "upgrade" "keep-alive" "proxy-connection" "transfer-encoding" "te" *)
+Definition h2_forbidden : list str :=
+  [ n_connection; n_upgrade; t_keep_alive;
+    [112;114;111;120;121;45;99;111;110;110;101;99;116;105;111;110];
+    [116;114;97;110;115;102;101;114;45;101;110;99;111;100;105;110;103]; [116;101] ].
+Definition h2_fields_ok (w : list (str * str)) : bool :=
+  wire_ok w &&
+  forallb (fun l => negb (mem_str (str_lower (fst l)) h2_forbidden)
+                    && str_eqb (trim_ows (snd l)) (snd l)) w.   (* HPACK values arrive as sent *)
+
+(* One stream.  The request necessarily lacks the Connection and Upgrade
+   elements, so the property demands a 4xx final response (and, over the
+   connection, no handler entry); the model says 400. *)
+Definition h2_stream_verdict (w : list (str * str)) (r : h2_res) : N :=
+  let hs := map deliver w in
+  match classify hs with
+  | MustReject =>
+      match r with
+      | H2Status code =>
+          if (400 <=? code) && (code <? 500)
+          then (if code =? status (resp (served hs)) then V_AGREE else V_DIVERGE)
+          else V_VIOLATION            (* a 101, or any other non-4xx answer *)
+      | H2NoFinal => V_VIOLATION      (* no final response *)
+      | H2Error _ => V_VIOLATION      (* no 4xx response either *)
+      end
+  | _ => V_MALFORMED   (* unreachable: no Connection field *)
+  end.
+
+Fixpoint h2_verdicts (reqs : list (list (str * str) * N)) (res : list h2_res) : list N :=
+  match reqs, res with
+  | [], [] => []
+  | (w, _) :: reqs', r :: res' =>
+      (if h2_fields_ok w then h2_stream_verdict w r else V_MALFORMED) :: h2_verdicts reqs' res'
+  | _, _ => [V_MALFORMED]
+  end.
+
 Definition judge (c : c20case) : N :=
   match c with
   | CHandshake wire obs =>
@@ -142,6 +193,12 @@ Definition judge (c : c20case) : N :=
       if negb (spec cl accept obs) then V_VIOLATION
       else if model_agrees (served hs) obs then V_AGREE
       else V_DIVERGE
+  | CH2 reqs res usable entered =>
+      let vs := h2_verdicts reqs res in
+      if is_nil reqs || existsb (N.eqb V_MALFORMED) vs then V_MALFORMED
+      else if existsb (N.eqb V_VIOLATION) vs || negb (entered =? 0) then V_VIOLATION
+      else if existsb (N.eqb V_DIVERGE) vs || negb usable then V_DIVERGE
+      else V_AGREE
   | CTotals n101 entered =>
       (* the handler is entered exactly once per upgraded connection *)
       if n101 =? entered then V_AGREE else V_VIOLATION
